@@ -154,9 +154,9 @@ def oracle_timepar_field(cls, par, form, tok, u, sdt, pu, route, probe=False, si
     v = B.sentinel(tok)
     value, fields = build_value(form, v, u, sdt, pu)
     data = dict(kind='timepar-field', cls=cls.__name__, probe=probe, par=par, form=form, tok=tok, u=enc_unit(u), sdt=sdt, pu=pu, route=route, simunit=simunit)
-    shown = f"{cls.__name__}({par}={value!r}) [{route}]"
     reg = registered_name(cls)
     if route == 'spec' and (probe or reg is None): route = 'ctor'
+    shown = f"{cls.__name__}({par}={value!r}) [{route}]"
 
     def make(val):
         if route == 'direct':
@@ -227,7 +227,7 @@ def oracle_timepar_field(cls, par, form, tok, u, sdt, pu, route, probe=False, si
             return dict(signature=dict(oracle='timepar-forms-differ', form=form, stage='init'),
                         what=f"{shown}: sim.init() raises {type(e).__name__} ({str(e)[:60]}) but works with the explicit constructor spelling", data=data)
         t2, r2 = mm.pars[par], mref.pars[par]
-        punit, pdt = mm.t.unit, mm.t.dt
+        punit, pdt = t2.parent_unit, t2.parent_dt       # what the parameter was linked to (HIV: its own unit is 'year' but its parameters are linked to the sim's)
         if t2.unit != want_u or (punit in DOC_LENGTH and not np.isclose(t2.factor, DOC_LENGTH[want_u] * want_s / (DOC_LENGTH[punit] * pdt), rtol=1e-12, atol=0)):
             return dict(signature=dict(oracle='timepar-field-dropped', field='unit', form=form, stage='init'),
                         what=(f"{shown} in a sim with unit={punit!r}, dt={pdt}: unit in effect {t2.unit!r}, factor {t2.factor!r}; expected unit {want_u!r}, "
@@ -249,7 +249,7 @@ def round5_search(ctx, targets):
     initable = []
     for cls, probe, par in tps:
         for form in FORMS:
-            for family in ('name', 'not-a-unit'):
+            for family in ('name', 'name', 'name', 'not-a-unit', 'not-a-unit'):
                 k += 1
                 import starsim as ss
                 if family == 'name':
@@ -266,7 +266,7 @@ def round5_search(ctx, targets):
         if not probe: initable.append((cls, probe, par))
     # initialised inside a sim (sampled; every form once)
     ctx.rng.shuffle(initable)
-    n = ctx.budget(16, len(initable) * 2)
+    n = ctx.budget(24, len(initable) * 3)
     done = 0
     for i in range(len(initable) * 3):
         if done >= n or not initable: break
